@@ -455,7 +455,7 @@ def process_file(em, path, report):
     applied = set(['M1', 'M2'])
     em.add('pub mod %s {' % stem)
     em.add('use vstd::prelude::*;\nuse vstd::view::View as SpecView;\nuse std::collections::VecDeque;\n'
-           'use crate::shim::*;\nuse crate::shim::View;\nuse crate::lem::*;\nuse crate::alg::*;\nuse crate::views::*;\n'
+           'use crate::shim::*;\nuse crate::shim::View;\nuse crate::lem::*;\nuse crate::alg::*;\nuse crate::alg2::*;\nuse crate::views::*;\n'
            'broadcast use {%s};' % (vc.get('broadcast') or 'crate::lem::group_lem, crate::shim::group_literals, crate::shim::group_shim').strip())
     pre = vc.get('pre')
     if pre: em.add(pre)
@@ -560,6 +560,9 @@ def build(out_path, only=None, exclude=None):
     em.add('pub mod alg {')
     em.add(open(os.path.join(VF, 'alg.rs')).read())
     em.add('} // mod alg')
+    em.add('pub mod alg2 {')
+    em.add(open(os.path.join(VF, 'alg2.rs')).read())
+    em.add('} // mod alg2')
     em.add('pub mod lem {')
     em.add(open(os.path.join(VF, 'lem.rs')).read())
     em.add('} // mod lem')
@@ -610,7 +613,7 @@ def build(out_path, only=None, exclude=None):
             continue
         em.add('pub mod %s {' % stem)
         em.add('use vstd::prelude::*;\nuse vstd::view::View as SpecView;\nuse std::collections::VecDeque;\n'
-               'use crate::shim::*;\nuse crate::shim::View;\nuse crate::lem::*;\nuse crate::alg::*;\nuse crate::views::*;\n'
+               'use crate::shim::*;\nuse crate::shim::View;\nuse crate::lem::*;\nuse crate::alg::*;\nuse crate::alg2::*;\nuse crate::views::*;\n'
                'broadcast use {crate::lem::group_lem, crate::shim::group_literals, crate::shim::group_shim};')
         txt = open(p).read()
         base = em.lineno()
